@@ -30,6 +30,8 @@ EXPECTED = {
     "forward": [
         "thresholds = self.get_thresholds()",
         "if x.ndim == 3:\n    x = x.unsqueeze(1)",
+        # guard (F76): a batch of single-channel images only - the model's encoding is per pixel against all thresholds
+        "if x.ndim != 4 or x.shape[1] != 1:\n    raise ValueError(f'expected a batch of single-channel images, (B, H, W) or (B, 1, H, W), got shape {tuple(x.shape)}')",
         "thresholds = thresholds.view(1, -1, 1, 1)",
         "if self._frozen:\n    outputs = (x > thresholds).to(torch.result_type(x, thresholds))\nelse:\n    outputs = torch.tanh(self.slope * (x - thresholds))\n    outputs = (outputs + 1.0) / 2.0",
         "return outputs",
